@@ -1482,7 +1482,7 @@ pub fn main() {
     ck.sub("editor-model", SubCfg::new(30_000, 1_000_000).max_len(1400).max_shrink(6000), case_editor_model);
 
     // ---------------------------------------------------------------------------------------------------------
-    ck.sub("editor-git", SubCfg::new(240, 6_000).max_len(1400).max_shrink(60), |t, c| {
+    ck.sub("editor-git", SubCfg::new(240, 6_000).max_len(1400).max_shrink(20), |t, c| {
         let pools = Pools {
             blobs: blob_pool(),
             allow_unknown_tree: false,
@@ -1549,7 +1549,7 @@ pub fn main() {
     });
 
     // ---------------------------------------------------------------------------------------------------------
-    ck.sub("gix-wrapper", SubCfg::new(160, 4_000).max_len(1400).max_shrink(60), |t, c| {
+    ck.sub("gix-wrapper", SubCfg::new(160, 4_000).max_len(1400).max_shrink(20), |t, c| {
         let flags = Flags {
             root_write_is_cursor_write: true,
             ..Default::default()
